@@ -255,6 +255,12 @@ class St:
     def efact(self):
         return self.errno[2]
 
+    def drop_mem(self, keep=None):
+        """forget classes of memory locations (fields) - after a call or a store through memory"""
+        if not any(isinstance(k, str) and k.startswith("M:") and k != keep for k, c in self.vals):
+            return self
+        return St(frozenset((k, c) for k, c in self.vals if not (isinstance(k, str) and k.startswith("M:") and k != keep)), self.errno, self.user)
+
     def drop_calls(self):
         return St(frozenset((k, c) for k, c in self.vals if not (isinstance(k, tuple) and k[0] == "call")), self.errno, self.user)
 
@@ -273,6 +279,9 @@ def value_key(fn, nid):
         return ("call", n["id"])
     if n["k"] == "bin" and n["op"] == "=":
         return value_key(fn, n["l"])
+    if n["k"] == "member" and n["field"]:
+        # a field read: valid until the next call or store through memory (killed there)
+        return "M:" + fn.apath_str(nid)
     return None
 
 
@@ -327,15 +336,15 @@ def _explore(rule, fn, st0, depth, top, budget, stack):
         for s in states:
             for succ, lab in es:
                 s2 = s
-                if succ == fn.exit and not any(fn.nodes[x]["k"] == "return" for x in blk.elems):
-                    # implicit return of a void function
-                    rule.on_exit(fn, s, None, None, top)
-                    exits.add((St(frozenset(), s.errno, s.user), None))
-                    continue
                 if lab is not None and cond is not None:
                     s2 = _branch(rule, fn, s, blk, cond, lab)
                     if s2 is None:
                         continue
+                if succ == fn.exit and not any(fn.nodes[x]["k"] == "return" for x in blk.elems):
+                    # implicit return of a void function
+                    rule.on_exit(fn, s2, None, None, top)
+                    exits.add((St(frozenset(), s2.errno, s2.user), None))
+                    continue
                 if s2 not in seen.setdefault(succ, set()):
                     seen[succ].add(s2)
                     work.append((succ, s2))
@@ -428,6 +437,8 @@ def _elem(rule, fn, st, nid, depth, budget, stack, exits, top):
         st = st.with_user(u)
     if k == "call":
         defs, exts = P.callees(fn, nid)
+        if not (n.get("callee") or "").startswith("__builtin_") and (n.get("callee") or "") not in ("__errno_location",):
+            st = st.drop_mem()
         # noreturn callee ends the path (block is flagged noreturn too)
         targets = [d for d in defs if rule.inline(fn, nid, d)] if depth < rule.max_depth else []
         targets = [d for d in targets if d not in stack]
@@ -483,6 +494,12 @@ def _elem(rule, fn, st, nid, depth, budget, stack, exits, top):
             st = st.set(vk, c)
             rk = value_key(fn, n["r"]) if n["op"] == "=" else None
             st = st.set(("src", vk), rk if isinstance(rk, tuple) else None)
+        elif ln["k"] == "member" and ln["field"]:
+            mk = "M:" + fn.apath_str(n["l"])
+            c = _class_of(fn, st, n["r"]) if n["op"] == "=" else None
+            st = st.drop_mem().set(mk, c)
+        elif ln["k"] in ("un", "index"):
+            st = st.drop_mem()
         if n["op"] == "=" and fn.show(n["r"]) == "errno":
             u0 = rule.on_errno_use(fn, st, nid, "read")
             if u0 is not None:
